@@ -8,6 +8,7 @@ from ..stypes import STYPES, parse_expr, show_expr
 from .. import progs as PG
 from . import binops as B
 from . import convlib
+from .. import irprobe
 
 PROPS = "theories/Props/C04.v"
 MODULE = "Props.C04"
@@ -133,6 +134,22 @@ def run(ctx):
         if rq != rs:
             ctx.violation({"kind": "capability", "storage": ty, "trait": cap, "quantity_implements": rq, "storage_type_implements": rs,
                            "program": progs[2 * k].rust_fn("probe"), "what": "a quantity must have exactly the capabilities of its storage type"})
+    # (c) optimised code: each quantity-level function of the catalogue (harness/irprobe.rs) against the bare-number reference with
+    #     the factor folded to one constant, in LLVM IR of a release build (signature = call ABI, body = the code)
+    ll, ir_src, ir_log = irprobe.build(["autoconvert", "f32", "f64", "si", "std"])
+    ir_pairs = []
+    if ll is None:
+        ctx.violation({"kind": "harness-build", "obligation": "the IR probe crate (harness/irprobe.rs) no longer compiles in release mode against /repo", "log": ir_log[-3000:]}, no_input=True)
+    else:
+        ir_pairs = irprobe.compare(ll, ir_src)
+        for n, same, detail in ir_pairs:
+            if not same:
+                fn_q = next((l for l in ir_src.splitlines() if f"pub fn q_{n}(" in l), "")
+                fn_b = next((l for l in ir_src.splitlines() if f"pub fn b_{n}(" in l), "")
+                ctx.violation({"kind": "optimised code", "pair": n, "quantity_level_function": fn_q.strip(), "bare_reference": fn_b.strip(), "detail": detail,
+                               "spec": "C04: optimised code (LLVM IR, release, one codegen unit) and call signature identical to the bare-number expression with the factor folded",
+                               "how_to_replay": "build harness/irprobe.rs as a lib crate depending on uom (path /repo; features autoconvert f32 f64 si std) with "
+                                                "cargo rustc --release --lib -- --emit=llvm-ir and compare @q_<pair> with @b_<pair>"})
     for cid, why in bad[:5]:
         kind, ty, q, u, d_, vb, sl = meta[cid]
         args = next(a for c, s, a in cases if c == cid)
@@ -142,8 +159,14 @@ def run(ctx):
     cov["explanation"] = ("PARTIAL. Decided: (a) Coq theorems that every float conversion/operator is bit-for-bit the bare-number expression with the factor folded to one "
                           "constant (no residual add/sub; identity for the base unit; sensitive to the -0.0/+0.0 ConstantOp choice), checked against the compiled crate by "
                           "comparing Quantity::new/get with a separately compiled bare-number reference function on every value class for selected units; (b) capability "
-                          "equality quantity <-> storage type for 14 traits x 11 storage types by compile probes; (c) size/align/niche equality. NOT decided by this "
-                          "technique: identity of optimised machine code, call ABI, #[repr(transparent)] as such, #[inline(always)] (facts about rustc/LLVM output).")
+                          "equality quantity <-> storage type for 14 traits x 11 storage types by compile probes; (c) size/align/niche equality; (d) the declaration of struct "
+                          "Quantity (repr attribute, field kinds) and the attributes and bodies of to_base/from_base/change_base are re-read from src/system.rs on every run and "
+                          "theorems state: repr(transparent) over two PhantomData and the value (hence size/align/ABI of the storage type by Rust's layout rules), "
+                          "#[inline(always)] on the three functions, bodies equal to the model's functions; (e) validation of (d) against the compiler: a catalogue of "
+                          "quantity-level functions vs bare-number references (harness/irprobe.rs) compiled in release mode, LLVM IR signature (call ABI) and body compared. "
+                          "Machine-code identity is thus observed on the catalogue, not proved for all programs.")
+    cov["ir_pairs"] = {n: ("identical: " + d_) if same else ("DIFFERENT: " + d_[:200]) for n, same, d_ in ir_pairs}
+    cov["ir_pairs_identical"] = sum(1 for _n, same, _d in ir_pairs if same)
     cov["evaluations"] = nfold + caps_checked + len(CAP_TYPES)
     cov["distinct_nontrivial"] = nfold
     cov["fold_comparisons"] = nfold
